@@ -452,6 +452,12 @@ func chainReplay(args []string) {
 
 						if o.Type == "create" {
 							sd := map[string]interface{}{"deltaHash": refModelHash(delta, algOfKey(1)), "recoveryCommitment": commitOf(o.Nr)}
+
+							// (an anchor origin is any JSON value: a list of origins in the chains whose keys carry nonces)
+							if nonce {
+								sd["anchorOrigin"] = []interface{}{"https://origin-a.example/", map[string]interface{}{"ledger": "main"}}
+							}
+
 							reqs[i], _ = json.Marshal(map[string]interface{}{"type": "create", "suffixData": sd, "delta": delta})
 
 							continue
@@ -472,6 +478,10 @@ func chainReplay(args []string) {
 							signed["deltaHash"] = refModelHash(delta, alg)
 							signed["recoveryCommitment"] = commitOf(o.Nr)
 							req["delta"] = delta
+
+							if nonce {
+								signed["anchorOrigin"] = map[string]interface{}{"ledger": "main", "shards": []interface{}{1, 2}}
+							}
 						case "deactivate":
 							signed["recoveryKey"] = jwkMap(jwk)
 							signed["didSuffix"] = testSuffix
@@ -542,6 +552,32 @@ func chainReplay(args []string) {
 					}()
 
 					col.sample(map[string]interface{}{"chain": cl.Ops, "kt": kt, "h": h, "nonce": nonce, "requests": []string{string(reqs[0]), string(reqs[len(reqs)-1])}})
+
+					// the operations read, one after the other, into ONE buffer that the caller uses again (as a reader of a batch
+					// file does): every answer is the answer for the bytes that are in the buffer at that moment
+					{
+						buf := make([]byte, 0, 1<<16)
+
+						for i := 1; i < len(reqs); i++ {
+							want1, werr1 := operationparser.New(p).GetRevealValue(append([]byte(nil), reqs[i]...))
+							want2, werr2 := operationparser.New(p).GetCommitment(append([]byte(nil), reqs[i]...))
+
+							// (padded with blanks to one length: the buffer is filled to the same mark every time)
+							buf = append(buf[:0], reqs[i]...)
+							for len(buf) < 6000 {
+								buf = append(buf, ' ')
+							}
+
+							got1, gerr1 := anchoredParser.GetRevealValue(buf)
+							got2, gerr2 := anchoredParser.GetCommitment(buf)
+
+							if got1 != want1 || got2 != want2 || (gerr1 == nil) != (werr1 == nil) || (gerr2 == nil) != (werr2 == nil) {
+								fail("get-commitment", fmt.Sprintf("operation %d read into a buffer that held operation %d before: the parser answers for another operation", i+1, i),
+									map[string]interface{}{"reveal": want1, "commitment": want2}, map[string]interface{}{"reveal": got1, "commitment": got2})
+								return
+							}
+						}
+					}
 
 					for i, o := range cl.Ops {
 						if _, err := parser.Parse("did:sidetree", reqs[i]); err != nil {
